@@ -843,6 +843,12 @@ func computeDeadEdges(w *World, fn *ssa.Function) {
 					neverNil = true
 				}
 			}
+			// a field that every construction of its struct fills, and that is only ever given values that cannot be nil
+			if fa, isFA := y.X.(*ssa.FieldAddr); isFA && y.Op == token.MUL {
+				if fv := fieldVarOf(fa); fv != nil && w.fieldNeverNil(fv) {
+					neverNil = true
+				}
+			}
 		case *ssa.Call:
 			if g := y.Call.StaticCallee(); g != nil && w.isMain(g) && g.Blocks != nil && g.Signature.Results().Len() == 1 {
 				if types.TypeString(y.Type(), nil) == "error" {
@@ -970,4 +976,175 @@ func errorOnlyWithNilResult(g *ssa.Function) bool {
 		}
 	}
 	return n > 0
+}
+
+// fieldNeverNil: fv is a pointer- or interface-typed field of a package struct such that (1) every composite literal /
+// allocation of that struct in the package stores the field, and (2) every store to it, anywhere, has a value that cannot
+// be nil: a fresh allocation, a never-nil result of a package function, the receiver of the storing method (which the
+// method has dereferenced), a closure's captured receiver, or a parameter that receives such a value at every call site.
+var fieldNilMemo = map[*types.Var]bool{}
+
+func (w *World) fieldNeverNil(fv *types.Var) bool {
+	if v, ok := fieldNilMemo[fv]; ok {
+		return v
+	}
+	fieldNilMemo[fv] = false
+	switch fv.Type().Underlying().(type) {
+	case *types.Pointer, *types.Interface:
+	default:
+		return false
+	}
+	var never func(fn *ssa.Function, v ssa.Value, d int) bool
+	never = func(fn *ssa.Function, v ssa.Value, d int) bool {
+		if d > 3 {
+			return false
+		}
+		v = strip(v)
+		if mi, ok := v.(*ssa.MakeInterface); ok {
+			v = strip(mi.X)
+		}
+		switch x := v.(type) {
+		case *ssa.Alloc:
+			return true
+		case *ssa.Call:
+			g := x.Call.StaticCallee()
+			return g != nil && w.isMain(g) && g.Blocks != nil && g.Signature.Results().Len() == 1 && w.nilStatus(g, 0, map[string]bool{}) == nilNever
+		case *ssa.Parameter:
+			pf := x.Parent()
+			idx := -1
+			for i, p := range pf.Params {
+				if p == x {
+					idx = i
+				}
+			}
+			if idx == 0 && pf.Signature.Recv() != nil {
+				// the receiver of a method that dereferences it (directly, or through the cell it is captured in)
+				for _, r := range *x.Referrers() {
+					if _, isFA := r.(*ssa.FieldAddr); isFA {
+						return true
+					}
+					if st, isSt := r.(*ssa.Store); isSt && st.Val == ssa.Value(x) {
+						if cell, isAl := st.Addr.(*ssa.Alloc); isAl {
+							for _, cr := range *cell.Referrers() {
+								if ld, isLd := cr.(*ssa.UnOp); isLd && ld.Referrers() != nil {
+									for _, lr := range *ld.Referrers() {
+										if _, isFA := lr.(*ssa.FieldAddr); isFA {
+											return true
+										}
+									}
+								}
+							}
+						}
+					}
+				}
+				return false
+			}
+			node := w.CG.Nodes[pf]
+			if idx < 0 || node == nil || len(node.In) == 0 {
+				return false
+			}
+			for _, e := range node.In {
+				if e.Site == nil || e.Site.Common().StaticCallee() != pf || idx >= len(e.Site.Common().Args) {
+					return false
+				}
+				if !never(e.Site.Parent(), e.Site.Common().Args[idx], d+1) {
+					return false
+				}
+			}
+			return true
+		case *ssa.FreeVar:
+			// what the enclosing function bound: look at the MakeClosure sites
+			cl := x.Parent()
+			idx := -1
+			for i, f := range cl.FreeVars {
+				if f == x {
+					idx = i
+				}
+			}
+			par := cl.Parent()
+			if idx < 0 || par == nil {
+				return false
+			}
+			found, okAll := false, true
+			eachInstr(par, func(in ssa.Instruction) {
+				if mc, ok := in.(*ssa.MakeClosure); ok && mc.Fn == ssa.Value(cl) && idx < len(mc.Bindings) {
+					found = true
+					b := mc.Bindings[idx]
+					// a captured variable is bound by its cell: a parameter spilled into a local cell
+					if al, isAl := b.(*ssa.Alloc); isAl {
+						src := cellSource(al)
+						if src == ssa.Value(al) || !never(par, src, d+1) {
+							okAll = false
+						}
+					} else if !never(par, b, d+1) {
+						okAll = false
+					}
+				}
+			})
+			return found && okAll
+		case *ssa.UnOp:
+			// a load of a captured cell or of another never-nil field
+			if x.Op == token.MUL {
+				if fvv, isFV := x.X.(*ssa.FreeVar); isFV {
+					return never(fn, fvv, d+1)
+				}
+			}
+		}
+		return false
+	}
+	owner := ""
+	nStores := 0
+	good := true
+	for _, fn := range w.All {
+		if !w.isMain(fn) || fn.Blocks == nil {
+			continue
+		}
+		fn := fn
+		eachInstr(fn, func(in ssa.Instruction) {
+			switch x := in.(type) {
+			case *ssa.Store:
+				if fa, ok := x.Addr.(*ssa.FieldAddr); ok && fieldVarOf(fa) == fv {
+					nStores++
+					owner = strings.SplitN(fieldRef(fa), ".", 2)[0]
+					if !never(fn, x.Val, 0) {
+						good = false
+					}
+				}
+			}
+		})
+	}
+	if !good || nStores == 0 {
+		return false
+	}
+	// every allocation of the owner struct stores the field
+	for _, fn := range w.All {
+		if !w.isMain(fn) || fn.Blocks == nil {
+			continue
+		}
+		eachInstr(fn, func(in ssa.Instruction) {
+			al, ok := in.(*ssa.Alloc)
+			if !ok {
+				return
+			}
+			nt, isN := al.Type().(*types.Pointer).Elem().(*types.Named)
+			if !isN || nt.Obj().Name() != owner {
+				return
+			}
+			set := false
+			for _, r := range *al.Referrers() {
+				if fa, isFA := r.(*ssa.FieldAddr); isFA && fieldVarOf(fa) == fv {
+					for _, rr := range *fa.Referrers() {
+						if _, isSt := rr.(*ssa.Store); isSt {
+							set = true
+						}
+					}
+				}
+			}
+			if !set {
+				good = false
+			}
+		})
+	}
+	fieldNilMemo[fv] = good
+	return good
 }
